@@ -471,6 +471,38 @@ def rule_r7(repo, run):
                     run.check(R, "%s:%s" % (mn, lead.strip()[:30]), lead.startswith("@"),
                               "the line `%s...` starts with `- ` (a YAML list item); write_lines takes the `-` for a de-indent "
                               "directive and deletes it unless the line is marked literal with @" % lead[:20], m.loc(c))
+    # the double-indent directive \r is only recognised as the first character of a line
+    ncr = 0
+    for mn in ("wrapc", "wrapf", "wrapp", "wrapl", "statements", "whelpers"):
+        m = repo.module(mn)
+        for node in ast.walk(m.tree):
+            if isinstance(node, ast.Constant) and isinstance(node.value, str) and "\r" in node.value:
+                for line in node.value.split("\n"):
+                    if "\r" in line:
+                        ncr += 1
+                        run.check(R, "%s:cr@%s" % (mn, re.sub(r"\s+", " ", line.replace("\r", "<CR>"))[:40]), line.index("\r") == 0 and line.count("\r") == 1,
+                                  "a \\r directive stands in the middle of a template line: write_continue only removes it at "
+                                  "index 0, elsewhere a raw carriage return is written into the generated file", m.loc(node))
+    if ncr < 1:
+        raise AnalysisError("C13.R7: no \\r directive found in the templates; rule would be vacuous")
+    # comma lists of dummy arguments are joined with a break hint
+    wf = repo.module("wrapf")
+    nj = 0
+    for q, fn in sorted(wf.functions().items()):
+        for j in ast.walk(fn):
+            if isinstance(j, ast.Call) and isinstance(j.func, ast.Attribute) and j.func.attr == "join" and \
+                    isinstance(j.func.value, ast.Constant) and isinstance(j.func.value.value, str) and "," in j.func.value.value \
+                    and j.args and isinstance(j.args[0], ast.Name) and re.search(r"arg_\w*names|arg_c_call", j.args[0].id):
+                nj += 1
+                run.check(R, "wrapf.%s:join(%s)" % (q, j.args[0].id), "\t" in j.func.value.value,
+                          "the argument list `%s` is joined with %r: without a \\t break hint the statement cannot be "
+                          "continued and exceeds 132 columns for long argument lists" % (j.args[0].id, j.func.value.value),
+                          wf.loc(j))
+    run.floor(R, "joined argument lists in wrapf", nj, 4)
+    # leading blanks of user splicer lines are kept (they shield a leading - + @ ^ from the layout interpreter)
+    from checks import c12
+    from sa.report import import_rules
+    import_rules(run, R, c12, repo, {"C12.R4"}, only=lambda c: c == "reader.store")
     # statements that list one name per overload must be breakable
     wf = repo.module("wrapf")
     wcl = wf.func("Wrapf.wrap_class")
